@@ -607,4 +607,4 @@ def _cases(draw):
 
 
 def subs(tier):
-    return [Generated("hier", check_hier, strategy=_cases(), quick=2400, thorough=60000)]
+    return [Generated("hier", check_hier, strategy=_cases(), quick=2000, thorough=60000, budget_s_quick=30.0)]
